@@ -1,15 +1,17 @@
 /-
   Cello/Registry.lean — executable model of the collector's registry (src/GC.c as it is now, after the `fix:` commits):
-  GC_Ideal_Size, GC_Rehash, GC_Resize_More/Less, GC_Set_Ptr, GC_Mem_Ptr, GC_Rem_Ptr (pending-list strike-off, backward
-  shift), GC_Mark_Item (bounds filter + probe + mark bit), the root loop of GC_Mark, GC_Sweep (in-place compaction, mark
-  clearing, shrink, finalisation of the pending list with removals issued by destructors), GC_Set, GC_Rem, start/stop.
+  GC_Ideal_Size, GC_Rehash, GC_Resize_More/Less, GC_Set_Ptr, GC_Mem_Ptr, GC_Rem_Ptr (NULL test, pending-list strike-off,
+  backward shift), GC_Mark_Item (bounds filter + probe + mark bit), GC_Unmark, the prologue and the root loop of GC_Mark,
+  GC_Sweep (in-place compaction, mark clearing, shrink, finalisation of the pending list with removals issued by
+  destructors), GC_Set, GC_Rem, GC_Del (unmark + sweep), start/stop.
   Core Lean only.  The slot array is `RH.Slots Nat Payload n` with `n` a field of the state (sigma type), so the loops of
   Cello/RH.lean and the lemmas of CelloProofs/Lemmas/RH*.lean apply to the executed model directly.
 
   `none` as a result means: the C code would divide by zero / never leave a probing loop / run out of the nesting the model
-  provides / call `destruct(NULL)` (GC_Rem_Ptr with ptr = NULL while GC_Sweep finalises: an exception raised inside the
-  collector).  The property theorems show it does not happen from well-formed states when no destructor deletes NULL; the
-  `…_refuted` theorems of Props/C17.lean exhibit the excluded region.
+  provides / call `destruct(NULL)` (only in the variant before fix d3e4e44, `remNullGuard := false`: GC_Rem_Ptr with
+  ptr = NULL while GC_Sweep finalises matched a struck-off slot — an exception raised inside the collector).  The property
+  theorems show it does not happen from well-formed states with the source as it is now; the `…_old_refuted` theorems of
+  Props/C17.lean exhibit it for the explicit OLD variants `gcCfgOldRem` / `gcCfgOldMark`.
 -/
 import Cello.RH
 import CelloGen.Reg
@@ -50,6 +52,9 @@ structure Cfg where
   hashShift : Nat            -- GC_Hash
   tieGe : Bool               -- GC_Set_Ptr: `j >= p`
   mitemsOf : Nat → Nat       -- collection threshold after a sweep / a removal
+  remNullGuard : Bool        -- GC_Rem_Ptr: `if (gc->nslots is 0 or ptr is NULL) { return; }` (false: `nslots` only, before d3e4e44)
+  markUnmarks : Bool         -- GC_Mark: GC_Unmark(gc) after the `nitems is 0` test (false: no clearing, before d8f0c4f)
+  delUnmarks : Bool          -- GC_Del: GC_Unmark(gc) before GC_Sweep(gc)
 
 /-- `GC_Hash` -/
 def hashOf (c : Cfg) (p : Nat) : Nat := p >>> c.hashShift
@@ -141,11 +146,14 @@ def memPtr (c : Cfg) (r : Reg) (p : Nat) : Option Bool :=
   if hn : 0 < r.n then RH.lookup (hashOf c) r.slots p hn else some false
 
 /-- `GC_Rem_Ptr` up to (not including) its final `dealloc(destruct(…))`: the new state and the object to finalise.
+    First `if (gc->nslots is 0 or ptr is NULL) { return; }` (the NULL half since fix d3e4e44: `c.remNullGuard`).
     The strike-off scan compares the raw words `gc->freelist[i] is ptr`; a slot that has been struck off (or whose object
-    GC_Sweep is finalising right now) holds NULL, so `ptr = NULL` matches it and the code runs `dealloc(destruct(NULL))`:
-    `type_of(NULL)` raises ValueError inside the collector (outcome `none`: the C code does not continue normally). -/
+    GC_Sweep is finalising right now) holds NULL, so without the NULL test `ptr = NULL` matches it and the code runs
+    `dealloc(destruct(NULL))`: `type_of(NULL)` raises ValueError inside the collector (outcome `none`: the C code does not
+    continue normally) — reachable only with `remNullGuard := false`. -/
 def remPtr (c : Cfg) (r : Reg) (p : Nat) : Option (Reg × Option Nat) :=
   if hn : 0 < r.n then
+    if c.remNullGuard && p == 0 then some (r, none) else
     match r.pending.findIdx? (fun x => x.getD 0 == p) with
     | some i => if p = 0 then none else some ({ r with pending := r.pending.setIfInBounds i none }, some p)
     | none =>
@@ -233,6 +241,21 @@ def markItem (c : Cfg) (r : Reg) (p : Nat) : Option Reg := markAll c r [p]
 def markRoots (r : Reg) : Reg :=
   { r with slots := r.slots.map (fun o => o.map (fun e => if e.val.root then { e with val := { e.val with marked := true } } else e)) }
 
+/-- second loop of GC_Sweep, and the loop of GC_Unmark -/
+def clearMarks {n : Nat} (s : Slots Nat Payload n) : Slots Nat Payload n :=
+  s.map (fun o => o.map (fun e => { e with val := { e.val with marked := false } }))
+
+/-- `GC_Unmark`: mark bits left behind by a mark phase that was left by an exception -/
+def unmark (r : Reg) : Reg := { r with slots := clearMarks r.slots }
+
+/-- the state GC_Mark marks from: GC_Unmark first (since fix d8f0c4f: `c.markUnmarks`) -/
+def markStart (c : Cfg) (r : Reg) : Reg := if c.markUnmarks then unmark r else r
+
+/-- `GC_Mark` as far as the registry sees it: nothing when `nitems is 0`; otherwise GC_Unmark, the roots, and GC_Mark_Item
+    on each address the thread-local storage, the roots' contents and the stack lead to (`marks`; the tracing is C01's) -/
+def gcMark (c : Cfg) (r : Reg) (marks : List Nat) : Option Reg :=
+  if r.nitems = 0 then some r else markAll c (markRoots (markStart c r)) marks
+
 /-- first loop of GC_Sweep: `while (i < nslots)` in-place compaction; returns slots, freelist, nitems -/
 def sweepLoop {n : Nat} : (fuel : Nat) → Slots Nat Payload n → (i : Nat) → Array (Option Nat) → Nat →
     Option (Slots Nat Payload n × Array (Option Nat) × Nat)
@@ -249,10 +272,6 @@ def sweepLoop {n : Nat} : (fuel : Nat) → Slots Nat Payload n → (i : Nat) →
           | some s' => sweepLoop fuel s' i (pend.push (some e.key)) (ni - 1)
         else sweepLoop fuel s (i+1) pend ni
     else some (s, pend, ni)
-
-/-- second loop of GC_Sweep -/
-def clearMarks {n : Nat} (s : Slots Nat Payload n) : Slots Nat Payload n :=
-  s.map (fun o => o.map (fun e => { e with val := { e.val with marked := false } }))
 
 /-- last loop of GC_Sweep: finalise what is still listed, slot by slot (a destructor may strike later slots off).  The C loop
     reads the word and skips it when it is NULL (`if (item)`): `none` here; an object at address 0 is never registered
@@ -295,10 +314,15 @@ def gcSet (c : Cfg) (K : Nat → List Nat) (r : Reg) (p : Nat) (root : Bool) (ma
       | some s =>
         let r2 := { r1 with slots := s }
         if r2.nitems > r2.mitems then
-          match markAll c (markRoots r2) marks with
+          match gcMark c r2 marks with
           | none => none
           | some r3 => gcSweep c K r3
         else some (r2, [])
+
+/-- `GC_Del` as far as the registry goes (before the arrays are freed): GC_Unmark (since fix d8f0c4f: `c.delUnmarks`), then
+    GC_Sweep — everything but the roots is finalised, whatever mark bits an interrupted mark phase left -/
+def gcDel (c : Cfg) (K : Nat → List Nat) (r : Reg) : Option (Reg × List Nat) :=
+  gcSweep c K (if c.delUnmarks then unmark r else r)
 
 def gcStart (r : Reg) : Reg := { r with running := true }
 def gcStop (r : Reg) : Reg := { r with running := false }
@@ -327,6 +351,13 @@ def invB (c : Cfg) (r : Reg) : Bool :=
 def gcCfg : Cfg :=
   { primes := CelloGen.Reg.gcPrimes, loadNum := CelloGen.Reg.gcLoadNum, loadDen := CelloGen.Reg.gcLoadDen,
     sizeBump := CelloGen.Reg.gcSizeBump, hashShift := CelloGen.Reg.gcHashShift, tieGe := CelloGen.Reg.gcTieGe,
-    mitemsOf := CelloGen.Reg.gcMitems }
+    mitemsOf := CelloGen.Reg.gcMitems, remNullGuard := CelloGen.Reg.gcRemNullGuard,
+    markUnmarks := CelloGen.Reg.gcMarkUnmarksFirst, delUnmarks := CelloGen.Reg.gcDelUnmarksFirst }
+
+/-- OLD variant: GC_Rem_Ptr as it was before fix d3e4e44 (no NULL test before the strike-off scan) -/
+def gcCfgOldRem : Cfg := { gcCfg with remNullGuard := false }
+
+/-- OLD variant: GC_Mark and GC_Del as they were before fix d8f0c4f (no GC_Unmark) -/
+def gcCfgOldMark : Cfg := { gcCfg with markUnmarks := false, delUnmarks := false }
 
 end Cello.Registry
